@@ -22,10 +22,13 @@ func MakeEmbeddedGenesisConfig() (store.Genesis, error) {
 	return NewGenesis(embeddedGenesis), nil
 }
 
-func ReadGenesisConfigFromFile(genesisFile string) (store.Genesis, error) {
+func ReadGenesisConfigFromFile(genesisFile string) (genesis store.Genesis, err error) {
 	defer func() {
-		if err := recover(); err != nil {
+		if r := recover(); r != nil {
 			log.Crit("invalid genesis file", "method", "readGenesis", "genesisFile", genesisFile)
+			// a config which makes the validation panic is not a valid config
+			genesis = nil
+			err = ErrInvalidGenesisConfig
 		}
 	}()
 
